@@ -18,7 +18,7 @@ ASSUMPTIONS = ["group weights are given in sorted-key order of the groups that h
                "the square form of pcDelta_grouped_cross is only demanded for bins=0 (vector-valued entries have no 2-D form; the code raises there)",
                "cell text contains no '.' or '_' (C02's quantifier); float comparison rel 1e-9, NaN == NaN"]
 EXHAUSTIVE = {"quick": ["fixed witness table x every function x every option"], "thorough": ["fixed witness tables x every function x every option"]}
-REQUIRE = {"pc_conditional_cases": 12, "pc_conditional_weighted": 6, "pc_conditional_multi_on": 6, "pc_conditional_two_by": 2,
+REQUIRE = {"pc_grouped_cross_big_cases": 1, "pc_conditional_cases": 12, "pc_conditional_weighted": 6, "pc_conditional_multi_on": 6, "pc_conditional_two_by": 2,
            "singleton_group_tables": 20, "pc_grouped_cross_cases": 5, "pcDelta_grouped_cases": 14, "pcDelta_grouped_bins0": 1,
            "pcDelta_grouped_cross_condensed": 11, "pcDelta_grouped_cross_square_bins0": 2, "renyi_cases": 10, "renyi_conditional": 5,
            "stdrenyi_cases": 4, "numeric_key_tables": 10, "cells_compared": 500, "weights_ndarray_reused": 3, "renyi_pc_exactly_zero": 3}
